@@ -23,7 +23,7 @@ import (
 	"pgregory.net/rapid"
 )
 
-const rules = "M1 no Commit before every mutation has a successful prewrite answer; M2 secondaries committed only after the primary's commit succeeded (unless async commit); M3 the owner sends no BatchRollback once the primary commit (async: every prewrite) may have taken effect; M4 a ResolveLock / pessimistic rollback by another client carries only an outcome and commit ts the store reported to that client (CheckTxnStatus, or all CheckSecondaryLocks answers for async commit); M5 CheckTxnStatus carries a current ts within the resolver's own clock (max only for ttl-0 locks) and rollback-if-not-exist only after the lock's ttl elapsed on that clock; M6 heart-beats name the primary, advise a non-decreasing ttl above the transaction's age, none after the end; M7 commit ts > start ts, >= every returned min-commit ts, > every timestamp issued before Commit was called unless causal; M8 one primary which is a locked mutation, async primary lists exactly the other locked keys, 1PC only with a single prewrite request; M9 prewritten mutations (op, value, pessimistic action) equal what the recorded API calls imply"
+const rules = "M1 no Commit before every mutation has a successful prewrite answer; M2 secondaries committed only after the primary's commit succeeded (unless async commit); M3 the owner sends no BatchRollback once the primary commit (async: every prewrite) may have taken effect; M4 a ResolveLock / pessimistic rollback by another client carries only an outcome and commit ts the store reported to that client (CheckTxnStatus, or all CheckSecondaryLocks answers for async commit); M5 CheckTxnStatus carries a current ts within the resolver's own clock (max only for ttl-0 locks), rollback-if-not-exist only after the lock's ttl elapsed on that clock, and async-commit recovery (CheckSecondaryLocks) starts only after the primary's reported ttl elapsed on that clock; M6 heart-beats name the primary, advise a non-decreasing ttl above the transaction's age, none after the end; M7 commit ts > start ts, >= every returned min-commit ts, > every timestamp issued before Commit was called unless causal; M8 one primary which is a locked mutation, async primary lists exactly the other locked keys, 1PC only with a single prewrite request; M9 prewritten mutations (op, value, pessimistic action) equal what the recorded API calls imply"
 
 func describe(vs []mon.Violation) string {
 	var s []string
@@ -214,14 +214,14 @@ func TestMonitorRegroup(t *testing.T) {
 // ---- (d) heart-beats
 
 func TestMonitorHeartBeats(t *testing.T) {
-	rec := ev.For(t, "C04", "monitor over heart-beat scenarios: ManagedLockTTL lowered to 40 ms (ticker 20 ms), a pessimistic transaction locks 1-3 keys, stays open for 3-6 ticks while the clock advances, optionally commits with its first Prewrite or Commit request parked for 3 ticks, ends by commit or rollback, and the trace is watched for 4 more ticks; rules M6 (plus all others); non-trivial = at least 3 heart-beats in the trace")
+	rec := ev.For(t, "C04", "monitor over heart-beat scenarios: ManagedLockTTL lowered to 40 ms (ticker 20 ms), a pessimistic transaction locks 1-3 keys, stays open for 3-6 ticks while the clock advances, optionally commits (2PC or async commit, batch size 1 or default) with one of its first Prewrite / Commit requests parked for 3 ticks while another client may read the keys, ends by commit or rollback, and the trace is watched for 4 more ticks; rules M6 (plus all others); non-trivial = at least 3 heart-beats in the trace")
 	old := atomic.LoadUint64(&transaction.ManagedLockTTL)
 	atomic.StoreUint64(&transaction.ManagedLockTTL, 40)
 	defer atomic.StoreUint64(&transaction.ManagedLockTTL, old)
 	rapid.Check(t, func(t *rapid.T) {
 		backend := rapid.SampledFrom([]sim.Backend{sim.Mock, sim.Uni}).Draw(t, "backend")
 		keys := []string{"a", "b", "c"}
-		steps := []*sim.Step{{Txn: 0, Op: "begin", Client: 0, Pessimistic: true}}
+		steps := []*sim.Step{{Txn: 0, Op: "begin", Client: 0, Pessimistic: true, Async: rapid.Bool().Draw(t, "async")}}
 		for i := rapid.IntRange(1, 3).Draw(t, "nlocks"); i > 0; i-- {
 			k := rapid.SampledFrom(keys).Draw(t, "k")
 			if rapid.Bool().Draw(t, "write") {
@@ -234,7 +234,13 @@ func TestMonitorHeartBeats(t *testing.T) {
 		steps = append(steps, &sim.Step{Op: "sleep", Ms: int64(rapid.IntRange(60, 120).Draw(t, "open"))})
 		end := &sim.Step{Txn: 0, Op: rapid.SampledFrom([]string{"commit", "commit", "rollback"}).Draw(t, "end")}
 		if end.Op == "commit" && rapid.Bool().Draw(t, "park") {
-			end.Faults = []sim.FaultSpec{{Type: rapid.SampledFrom([]string{"Prewrite", "Commit"}).Draw(t, "ptype"), Index: 0, Action: "gateBefore", Nested: &sim.Step{Op: "sleep", Ms: 65}}}
+			// while the request is parked the owner keeps beating; optionally another client then reads the keys: the
+			// secondaries' own ttl (never refreshed) has run out by then, the heart-beaten primary is alive
+			nested := []*sim.Step{{Op: "sleep", Ms: 65}}
+			if rapid.Bool().Draw(t, "reader") {
+				nested = append(nested, &sim.Step{Txn: 9, Op: "begin", Client: 1}, &sim.Step{Txn: 9, Op: "batchget", Keys: keys}, &sim.Step{Txn: 9, Op: "rollback"})
+			}
+			end.Faults = []sim.FaultSpec{{Type: rapid.SampledFrom([]string{"Prewrite", "Prewrite", "Commit"}).Draw(t, "ptype"), Index: rapid.IntRange(0, 1).Draw(t, "pidx"), Action: rapid.SampledFrom([]string{"gateBefore", "gateAfter"}).Draw(t, "pwhen"), Nested: &sim.Step{Op: "seq", Sub: nested}}}
 		}
 		steps = append(steps, end, &sim.Step{Op: "sleep", Ms: 85})
 		res := prog.Run(backend, 1, false, true, keys, nil, steps, map[string]bool{})
